@@ -130,6 +130,11 @@ Definition expr_sem (fd : fdesc) (e : expr) : option esem :=
       | VStr s => match range_desc s with
                   | Some (l, h, _) => if l <? h then Some (ERange l h) else if l =? h then Some (ERange l (h + 1)) else None
                   | None => None end
+      | VList _ [a; b] =>
+        match int_scalar a, int_scalar b with
+        | Some l, Some h => if l <? h then Some (ERange l h) else if l =? h then Some (ERange l (h + 1)) else None
+        | _, _ => None
+        end
       | _ => None
       end
     | OpOther => None
